@@ -240,17 +240,27 @@ def iterpath(obj, path=None):
 
         elif isinstance(varobj, list):
 
-            for idx, item in enumerate(varobj):
-                index = '[{0}]'.format(idx)
-                path.append(index)
+            for item in _iterpath_list(varobj, path):
+                yield item
 
-                yield (path, item)
+        path.pop()
 
-                if isinstance(item, collections.abc.Mapping):
-                    for descendant in iterpath(item, path):
-                        yield descendant
 
-                path.pop()
+def _iterpath_list(values, path):
+    """The part of iterpath() for a list (whose elements may be lists too)."""
+    for idx, item in enumerate(values):
+        index = '[{0}]'.format(idx)
+        path.append(index)
+
+        yield (path, item)
+
+        if isinstance(item, collections.abc.Mapping):
+            for descendant in iterpath(item, path):
+                yield descendant
+
+        elif isinstance(item, list):
+            for descendant in _iterpath_list(item, path):
+                yield descendant
 
         path.pop()
 
